@@ -458,3 +458,59 @@ func phiClosure(v ssa.Value) []ssa.Value {
 	walk(v)
 	return out
 }
+
+// expandConds adds the conditions implied by boolean values that were computed earlier and tested later:
+//
+//	ok := a && b; ...; if ok {..}     (ok is phi[false, b]: ok true implies a and b)
+//	if !x {..}
+//
+// A phi of booleans implies, for the tested value, whatever holds on the only incoming edge that can carry that
+// value: the edge's own value, and every condition under which the edge is taken.
+func expandConds(in []condFact) []condFact {
+	out := append([]condFact(nil), in...)
+	seen := map[ssa.Value]bool{}
+	for i := 0; i < len(out) && i < 64; i++ {
+		cf := out[i]
+		if seen[cf.Cond] {
+			continue
+		}
+		seen[cf.Cond] = true
+		switch x := cf.Cond.(type) {
+		case *ssa.UnOp:
+			if x.Op == token.NOT {
+				out = append(out, condFact{x.X, !cf.Val, cf.If})
+			}
+		case *ssa.Phi:
+			if b, ok := x.Type().Underlying().(*types.Basic); !ok || b.Kind() != types.Bool {
+				continue
+			}
+			cand := -1
+			n := 0
+			for k, e := range x.Edges {
+				if kb, isK := constBool(e); isK && kb != cf.Val {
+					continue
+				}
+				cand = k
+				n++
+			}
+			if n != 1 {
+				continue
+			}
+			if _, isK := constBool(x.Edges[cand]); !isK {
+				out = append(out, condFact{x.Edges[cand], cf.Val, cf.If})
+			}
+			pred := x.Block().Preds[cand]
+			for _, d := range dominatingConds(pred) {
+				out = append(out, condFact{d.Cond, d.Val, cf.If})
+			}
+			if iff, ok := pred.Instrs[len(pred.Instrs)-1].(*ssa.If); ok && pred.Succs[0] != pred.Succs[1] {
+				if pred.Succs[0] == x.Block() {
+					out = append(out, condFact{iff.Cond, true, cf.If})
+				} else if pred.Succs[1] == x.Block() {
+					out = append(out, condFact{iff.Cond, false, cf.If})
+				}
+			}
+		}
+	}
+	return out
+}
